@@ -10,7 +10,7 @@ from pymemcache.client.base import (
     normalize_server_spec,
 )
 from pymemcache.client.rendezvous import RendezvousHash
-from pymemcache.exceptions import MemcacheError
+from pymemcache.exceptions import MemcacheError, MemcacheUnexpectedCloseError
 
 logger = logging.getLogger(__name__)
 
@@ -222,7 +222,7 @@ class HashClient:
 
         # Connecting to the server fail, we should enter
         # retry mode
-        except OSError:
+        except (OSError, MemcacheUnexpectedCloseError):
             self._mark_failed_server(client.server)
 
             # if we haven't enabled ignore_exc, don't move on gracefully, just
@@ -278,7 +278,7 @@ class HashClient:
 
         # Connecting to the server fail, we should enter
         # retry mode
-        except OSError:
+        except (OSError, MemcacheUnexpectedCloseError):
             self._mark_failed_server(client.server)
 
             # if we haven't enabled ignore_exc, don't move on gracefully, just
@@ -339,7 +339,9 @@ class HashClient:
         except Exception as e:
             # connection failures must reach the failover bookkeeping of the
             # caller even when they are not re-raised to the user
-            if not self.ignore_exc or isinstance(e, OSError):
+            if not self.ignore_exc or isinstance(
+                e, (OSError, MemcacheUnexpectedCloseError)
+            ):
                 return succeeded, failed, e
 
         succeeded = [key for key in values if key not in failed]
